@@ -89,14 +89,24 @@ func c17Length(c *Ctx) {
 		why := "no return found"
 		want, _ := c.importedConst("os", "ModeDevice")
 		for _, r := range returnsOf(dv) {
-			cm, _, ok := cmpOf(unspill(r, r.Results[0]))
+			cm, truth, ok := cmpOf(unspill(r, r.Results[0]))
 			okD = false
 			why = "the result is not a comparison of mode & os.ModeDevice with 0"
 			if ok && (cm.op == token.NEQ || cm.op == token.EQL) {
 				if and, isAnd := stripConv(cm.x).(*ssa.BinOp); isAnd && and.Op == token.AND {
 					if k, isK := and.Y.(*ssa.Const); isK && k.Value != nil && k.Value.ExactString() == want {
-						if z, isZ := cm.y.(*ssa.Const); isZ && z.Value != nil && constInt64(z) == 0 {
-							okD = true
+						// mode&K != 0, or (K being a single bit) mode&K == K; in either polarity
+						// the result must be true exactly when the bit is set
+						if z, isZ := cm.y.(*ssa.Const); isZ && z.Value != nil {
+							switch {
+							case constInt64(z) == 0:
+								okD = (cm.op == token.NEQ) == truth
+							case z.Value.ExactString() == want:
+								okD = (cm.op == token.EQL) == truth
+							}
+							if !okD {
+								why = "the result is true when the ModeDevice bit is clear"
+							}
 						}
 					}
 				}
